@@ -409,6 +409,9 @@ class Evaluator:
             env[params[0]] = self_obj if self_obj is not None else ObjV(f.cls)
             params = params[1:]
         defaults = f.defaults()
+        if f.node.args.kwarg is not None:
+            kwn = f.node.args.kwarg.arg
+            env[kwn] = args.pop(kwn) if kwn in args else {}
         for p in params:
             if p in args:
                 env[p] = args.pop(p)
@@ -1532,6 +1535,8 @@ class Evaluator:
         if isinstance(base, ObjV):
             if node.attr in base.fields:
                 return base.fields[node.attr]
+            if node.attr.split("__")[-1] in {t.split("__")[-1] for t in MEMO_OK_SLOTS}:
+                return None                  # a complete one-slot cache, followed as a miss
             if base.cls == "Sequence":
                 if node.attr == "seq":
                     return SeqV("seq")
@@ -1823,6 +1828,16 @@ class Evaluator:
             if isinstance(v, (list, tuple)) and all(isinstance(x, (tuple, list)) and len(x) == 2 and _pykey(x[0]) is not None for x in v):
                 return {_pykey(x[0]): x[1] for x in v}
             raise Undecided("dict(%s)" % unparse(args[0])[:40], fr.f.loc(node))
+        if name == "getattr" and len(args) == 2 and not node.keywords:
+            obj = self.eval(args[0], env, fr)
+            attr = self.eval(args[1], env, fr)
+            attr = _concrete_str(attr) if not isinstance(attr, str) else attr
+            if isinstance(obj, ObjV) and isinstance(attr, str):
+                m_ = self.prog.method(obj.cls, attr)
+                if m_ is not None:
+                    return BoundV(obj, m_)
+                return self.eval_attr(ast.copy_location(ast.Attribute(value=args[0], attr=attr, ctx=ast.Load()), node), env, fr)
+            raise Undecided("getattr(%s) with a name or an object lcsa does not know" % unparse(node)[:50], fr.f.loc(node))
         if name == "zip" and args and not node.keywords and not any(isinstance(a, ast.Starred) for a in args):
             vals = [self.eval(a, env, fr) for a in args]
             vals = [list(v.keys()) if isinstance(v, dict) else v for v in vals]
@@ -1971,6 +1986,13 @@ class Evaluator:
                 e2[p_] = self.eval(a, env, fr)
             return self.eval(lv.node.body, e2, _Frame(lv.f, fr.depth + 1))
         callee = self.prog.resolve_call(fr.f, node, fr.types())
+        bound_obj = None
+        if isinstance(fn, ast.Name) and isinstance(env.get(fn.id), BoundV):
+            callee, bound_obj = env[fn.id].f, env[fn.id].obj      # a local bound to a method of a modelled object
+        elif isinstance(fn, ast.Call) and _callname(fn) == "getattr":
+            bv = self.eval(fn, env, fr)                            # getattr(obj, name)(...)
+            if isinstance(bv, BoundV):
+                callee, bound_obj = bv.f, bv.obj
         if isinstance(fn, ast.Name) and isinstance(env.get(fn.id), FuncV):
             callee = env[fn.id].f                       # a local bound to a package function
         elif callee is None and isinstance(fn, ast.Subscript):
@@ -2018,6 +2040,8 @@ class Evaluator:
         if callee.cls:
             if callee.is_static:
                 self_obj = ObjV(callee.cls)              # no receiver: `Cls.helper(x)` and `self.helper(x)` run the same body
+            elif bound_obj is not None:
+                self_obj = bound_obj
             elif isinstance(fn, ast.Attribute):
                 self_obj = self.eval(fn.value, env, fr)
             if callee.name == "__init__":
@@ -2053,12 +2077,26 @@ class Evaluator:
             if i >= len(params):
                 raise Undecided("too many arguments for %s" % callee.qual, fr.f.loc(node))
             bound[params[i]] = a
-        for k, v in kw.items():
+        kwname = callee.node.args.kwarg.arg if callee.node.args.kwarg is not None else None
+        extra_kw = {}
+        for kwnode in node.keywords:
+            k, v = kwnode.arg, kwnode.value
             if k is None:
-                raise Undecided("** arguments in the call of %s" % callee.qual, fr.f.loc(node))
-            if k not in params:
-                raise Undecided("unknown keyword %s for %s" % (k, callee.qual), fr.f.loc(node))
-            bound[k] = self.eval(v, env, fr)
+                dv = self.eval(v, env, fr)                  # **options: a dict with literal names
+                if not (isinstance(dv, dict) and all(isinstance(x, str) for x in dv)):
+                    raise Undecided("** arguments in the call of %s" % callee.qual, fr.f.loc(node))
+                items = list(dv.items())
+            else:
+                items = [(k, self.eval(v, env, fr))]
+            for k2, v2 in items:
+                if k2 in params:
+                    bound[k2] = v2
+                elif kwname is not None:
+                    extra_kw[k2] = v2
+                else:
+                    raise Undecided("unknown keyword %s for %s" % (k2, callee.qual), fr.f.loc(node))
+        if kwname is not None:
+            bound[kwname] = extra_kw
         if callee.cls and callee.name == "__init__" and callee.cls in CONCRETE_CTORS:
             return self.construct(callee, bound, fr, node)
         paths = self.run_function(callee, bound, self_obj, fr.depth + 1)
@@ -2332,6 +2370,7 @@ class Evaluator:
         raise Undecided("numpy/math idiom %s not in the normaliser's table" % attr, fr.f.loc(node))
 
 
+MEMO_OK_SLOTS = set()   # names of one-slot result caches (`if self.F is not None: return self.F`) MEMO-KEY showed complete: read as empty
 MEMO_OK_TABLES = set()  # names of object-level result tables whose key MEMO-KEY showed complete (filled by props.common.check_memos)
 DECORATORS_OK = set()   # keys of decorated functions whose (memoising) wrapper was shown key-complete by MEMO-KEY
 ABS_REG = {}     # atom name -> Rat it is the absolute value of
@@ -2513,6 +2552,17 @@ def _same_member(a, b):
         return type(a) is type(b) and a == b and isinstance(a, (str, int, bool))
     except Exception:
         return False
+
+
+class BoundV:
+    """a bound method used as a value: getattr(obj, 'name'), or obj.name handed on to be called later"""
+    __slots__ = ("obj", "f")
+
+    def __init__(self, obj, f):
+        self.obj, self.f = obj, f
+
+    def __repr__(self):
+        return "BoundV(%s.%s)" % (self.obj.cls, self.f.name)
 
 
 class LambdaV:
